@@ -112,6 +112,8 @@ func (dec *decoder) popValueAsBytes() (json.RawMessage, error) {
 }
 
 type fieldError struct {
+	// innermost field first: each level of nesting appends its own name, so
+	// passing an error up through n levels costs O(n), not O(n^2)
 	pathToField []string
 	err         error
 }
@@ -131,12 +133,16 @@ func unexpectedTokenError(got, expected interface{}) error {
 }
 
 func (e fieldError) Error() string {
-	return fmt.Sprintf("field %s: %s", strings.Join(e.pathToField, "."), e.err.Error())
+	path := make([]string, len(e.pathToField))
+	for i, field := range e.pathToField {
+		path[len(path)-1-i] = field
+	}
+	return fmt.Sprintf("field %s: %s", strings.Join(path, "."), e.err.Error())
 }
 
 func (e fieldError) parent(field string) error {
 	return fieldError{
-		pathToField: append([]string{field}, e.pathToField...),
+		pathToField: append(e.pathToField, field),
 		err:         e.err,
 	}
 }
